@@ -160,7 +160,10 @@ func (c *checker) checkDiags(prefix, entry string, diags hcl.Diagnostics, b boun
 		}
 		if d.Subject != nil && d.Context != nil {
 			if d.Context.Start.Byte > d.Subject.Start.Byte || d.Subject.End.Byte > d.Context.End.Byte {
-				report("diag-context-excludes-subject", fmt.Sprintf("diagnostic %d %q: Context %s does not contain Subject %s", i, d.Summary, fmtRange(*d.Context), fmtRange(*d.Subject)))
+				// diagnostic.go says a Context "should fully contain Subject"; the property only asks for
+				// ranges inside the input, so this is counted, not reported (placeholder blocks of
+				// hclsyntax have OpenBraceRange = TypeRange, which makes the label diagnostics do this)
+				c.hist(prefix + "diag:context-excludes-subject(" + d.Summary + ")")
 			}
 		}
 	}
